@@ -10,12 +10,20 @@ GOENV = dict(os.environ, GOFLAGS="-mod=mod", GOPROXY="off", GOSUMDB="off", GOTOO
              CGO_ENABLED=os.environ.get("CGO_ENABLED", "1"), RUNEWIDTH_EASTASIAN="0")
 
 TRUSTED_BASE = [
-    "Coq 8.16.1 kernel (coqc; vm_compute used for finite facts and witnesses; no native_compute)",
+    "Coq 8.16.1 kernel (coqc; vm_compute used for finite facts, witnesses and obligations over generated tables; no native_compute); "
+    "coqchk -o over all Props modules at the end of a round",
+    "axioms: none, except for C07/C08/C20 whose proofs go through Flocq's real-number lemmas (standard library's "
+    "ClassicalDedekindReals.sig_forall_dec, sig_not_dec, Classical_Prop.classic, FunctionalExtensionality.functional_extensionality_dep); "
+    "the list printed by Print Assumptions is in the axioms field",
     "extraction to OCaml with ExtrOcamlBasic only (bool, option, list, prod, unit, sumbool mapped; Z/positive/nat inductive; no Extract Constant)",
-    "OCaml glue ocaml/glue.ml + ocaml/driver.ml (line parsing/printing, zarith only for decimal I/O)",
-    "Go harness /verif/harness (generators, executors, observers) and the verif-tagged hooks in /repo",
+    "OCaml glue ocaml/glue.ml + ocaml/driver.ml (line parsing/printing, zarith only for decimal I/O; the linearization search of the conc "
+    "family is untrusted: its certificate is validated by the extracted checker)",
+    "Go harness /verif/harness (generators, executors, observers, pseudo terminal driver), the verif-tagged hooks in /repo, the Go race "
+    "detector, the Python driver and monitors (lib/), the Python terminal replay cross-checked against the extracted reader",
     "translator /verif/translator (go/parser based) for the regenerated tables coq/gen/*.v",
-    "Go runtime, container/heap, runewidth/uniseg, strconv, fmt, bytes.Buffer: modelled, not verified",
+    "modelled, not verified: Go's channels, select, WaitGroup, context, scheduler and memory model; go-runewidth/uniseg (widths are "
+    "measured); strconv, fmt, bytes.Buffer; the tty driver; user-supplied fillers, decorators and writers. container/heap's algorithms are "
+    "transcribed in PQueue.v, proved and compared step by step with the real queue",
 ]
 
 
